@@ -233,12 +233,12 @@ def proxy_filter(ctx: Ctx):
     yield ctx.ob('SUPPORT.PROXY-FILTER', ok, None, None, f'whitespace filter pattern {pat!r} matches whitespace only', '' if ok else
                  f'the fragment filter {pat!r} of LoggerFileProxy can match (and drop) non-whitespace output', construct='pattern', path='labtech/utils.py')
     wr = c.methods.get('write')
-    tests = [n for n in walk_local(wr.node) if isinstance(n, ast.If)]
+    bp = [a.arg for a in wr.params if a.arg != wr.self_name][0]
+    apps = [w for w in field_writes(wr) if w.kind in ('mutcall:append', 'mutcall:extend')]
     okf = False
-    if tests:
-        t = tests[0].test
-        okf = isinstance(t, ast.UnaryOp) and isinstance(t.op, ast.Not) and isinstance(t.operand, ast.Call) \
-            and isinstance(t.operand.func, ast.Attribute) and t.operand.func.attr == 'fullmatch' \
-            and 'whitespace_only_re' in src(t.operand.func.value)
-    yield ctx.ob('SUPPORT.PROXY-FILTER', okf, wr, wr.node, 'write() filters with fullmatch (whole fragment), negated', '' if okf else
-                 'write() does not keep exactly the fragments that are not entirely whitespace (fullmatch)', construct='fullmatch')
+    if apps:
+        cnd = cond_from_entry(ctx, wr, apps[0].node)
+        need = f_not(formula_of(ctx, wr, f'{wr.self_name}.whitespace_only_re.fullmatch({bp})'))
+        okf = equivalent(cnd, need)
+    yield ctx.ob('SUPPORT.PROXY-FILTER', okf, wr, apps[0].node if apps else wr.node, 'write() keeps a fragment iff fullmatch(whitespace) fails', '' if okf else
+                 'write() does not keep exactly the fragments that are not entirely whitespace (fullmatch on the whole fragment)', construct='fullmatch')
